@@ -195,4 +195,63 @@ theorem asRgbChan_spec (shape : List Nat) (hne : shape ≠ []) (num : Bool) (c :
       cases h
       exact ⟨G, gm, ge, gr, gmin⟩
 
+/-- generic in the scalar type (so also for the `Float` instance the driver runs): an array argument of the right
+    shape is `stretch(c)` with the defaults `0, 255, uint8`; `None` is a zero channel; a number fills the channel
+    (reduced to `uint8`) -/
+theorem asRgbChan_ok {α : Type} [Add α] [Sub α] [Mul α] [Div α] [LT α] [DecidableLT α] [OfNat α 0]
+    (ofInt : Int → α) (trunc : α → Int) (shape : List Nat) (hne : shape ≠ []) (num : Bool) (c : Chan α)
+    (hc : ∀ s d, c = .arr s d → s = shape) :
+    ∃ vals, asRgbChan ofInt trunc shape num c = .ok vals ∧
+      (c = .none → vals = List.replicate (shapeSize shape) 0) ∧
+      (∀ v, c = .scalar v → vals = List.replicate (shapeSize shape) ((dtU 8).wrap v)) ∧
+      (∀ s d, c = .arr s d → vals = stretchIntG ofInt trunc (dtU 8) d none none) := by
+  cases c with
+  | none =>
+    refine ⟨_, rfl, ?_, ?_, ?_⟩
+    · intro _; rfl
+    · intro v h; cases h
+    · intro s d h; cases h
+  | scalar v =>
+    refine ⟨_, rfl, ?_, ?_, ?_⟩
+    · intro h; cases h
+    · intro v' h; cases h; rfl
+    · intro s d h; cases h
+  | arr s d =>
+    have hs : s = shape := hc s d rfl
+    subst hs
+    refine ⟨stretchU8G ofInt trunc d, by simp [asRgbChan, hne], ?_, ?_, ?_⟩
+    · intro h; cases h
+    · intro v h; cases h
+    · intro s' d' h; cases h; rfl
+
+/-- `as_rgb(r, g, b)` for `(h, w)` images, generic in the scalar type: when the first array argument has shape
+    `(h, w)` and every array argument has that shape, the call succeeds, the result has shape `(h, w, 3)` and
+    `3hw` elements, and element `(p, k)` (pixel `p`, channel `k`) is element `p` of what `s(c)` returns for
+    argument `k` -/
+theorem asRgbG_image {α : Type} [Add α] [Sub α] [Mul α] [Div α] [LT α] [DecidableLT α] [OfNat α 0]
+    (ofInt : Int → α) (trunc : α → Int) (h w : Nat) (r g b : Chan α)
+    (hs : firstShape [r, g, b] = some [h, w])
+    (hr : ∀ s d, r = .arr s d → s = [h, w]) (hg : ∀ s d, g = .arr s d → s = [h, w])
+    (hb : ∀ s d, b = .arr s d → s = [h, w]) :
+    ∃ cr cg cb data, asRgbG ofInt trunc r g b = .ok ([h, w, 3], data) ∧ data.length = h * w * 3 ∧
+      asRgbChan ofInt trunc [h, w] (r.isScalar || g.isScalar || b.isScalar) r = .ok cr ∧
+      asRgbChan ofInt trunc [h, w] (r.isScalar || g.isScalar || b.isScalar) g = .ok cg ∧
+      asRgbChan ofInt trunc [h, w] (r.isScalar || g.isScalar || b.isScalar) b = .ok cb ∧
+      ∀ p < h * w, data.getD (p * 3) 0 = cr.getD p 0 ∧ data.getD (p * 3 + 1) 0 = cg.getD p 0 ∧
+        data.getD (p * 3 + 2) 0 = cb.getD p 0 := by
+  obtain ⟨cr, er, _⟩ := asRgbChan_ok ofInt trunc [h, w] (by simp) (r.isScalar || g.isScalar || b.isScalar) r hr
+  obtain ⟨cg, eg, _⟩ := asRgbChan_ok ofInt trunc [h, w] (by simp) (r.isScalar || g.isScalar || b.isScalar) g hg
+  obtain ⟨cb, eb, _⟩ := asRgbChan_ok ofInt trunc [h, w] (by simp) (r.isScalar || g.isScalar || b.isScalar) b hb
+  have hsz : shapeSize [h, w] / dstackBlock [h, w] = h * w := by simp [shapeSize, dstackBlock]
+  refine ⟨cr, cg, cb, dstackData 1 3 (h * w) [cr, cg, cb], ?_, ?_, er, eg, eb, ?_⟩
+  · unfold asRgbG
+    simp only [hs, er, eg, eb, hsz]
+    rfl
+  · rw [dstackData_length, Nat.mul_one]
+  · intro p hp
+    have h0 := dstackData_get 3 (h * w) [cr, cg, cb] hp (show 0 < 3 by norm_num)
+    have h1 := dstackData_get 3 (h * w) [cr, cg, cb] hp (show 1 < 3 by norm_num)
+    have h2 := dstackData_get 3 (h * w) [cr, cg, cb] hp (show 2 < 3 by norm_num)
+    exact ⟨by simpa using h0, by simpa using h1, by simpa using h2⟩
+
 end Mahotas.C20
